@@ -27,7 +27,13 @@ def run(ctx):
                 'join; lookup/lookupone/dictlookup(one)/recordlookup(one) dictionaries (insertion order, values in table order, '
                 'strict) vs the model. Non-trivial: both sides non-empty / table with a repeated key.')
     ctx.assumptions += ['Python dict/set: hash consistent with ==, insertion-ordered']
-    ctx.prove(['PetlProofs.Props.C07'], REQUIRED)
+    from translators import argforms as _af
+    try:
+        _info = _af.generate()
+        ctx.bridge('translator: truthiness tests on selection-like arguments in %d functions (%d sites)' % (_info['functions'], len(_info['sites'])), True)
+    except Exception as e:   # noqa
+        ctx.bridge('translator: argument-form sites extracted', False, repr(e))
+    ctx.prove(['PetlProofs.Props.C07', 'PetlProofs.Props.ArgForms'], REQUIRED + ['Petl.ArgForms.selection_arguments_not_tested_by_truthiness'])
     rng = ctx.rng
     n = 2000 if ctx.thorough() else 300
     lines, metas = [], []
